@@ -31,7 +31,7 @@ def gen(ctx, rng, per_solver):
                 tol = 10.0 ** (-rng.uniform(3, 7))     # first-order estimator: keep the budget finite
             dtmin = dtmax * 10.0 ** (-rng.randint(6, 9))
             cases.append(ivpgen.base_case(0, solver, dim, t0, t0 + span, dtmin, dtmax, tol, rhs, y0, work=True,
-                                          budget=3000000, max_items=2000000))
+                                          budget=3000000, max_items=2000000, min_first=(k % 2 == 1)))
         # hard starts: the first trial step is far too long for the tolerance (violent first rejections)
         for k in range(max(2, per_solver // 3)):
             dim = rng.randint(1, 3)
